@@ -130,6 +130,7 @@ def run(ck):
     c15.agreement(ck, prog)
     c15.remainder_sent(ck, prog)
     c15.foldable_rule(ck, prog)
+    degree_bound_rule(ck, prog)
     cols_rule(ck, prog)
     from . import width
     width.run(ck, prog)   # a proof of an ordinary legal configuration survives serialization: no length prefix truncates
@@ -250,3 +251,48 @@ def cols_rule(ck, prog):
           detail=None if bad is None else {"trace_length": bad[0], "exemptions": bad[1], "constraint degree": bad[2], "columns returned": bad[3],
                                            "columns needed": bad[4], "extracted": bad[5]})
     ck.control("COLS: ceil(D / n) differs from ceil((D + 1) / n) exactly when n divides D", max(1, -(-16 // 16)) != max(1, -(-17 // 16)))
+
+
+def degree_bound_rule(ck, prog):
+    """DEG: the prover's sanity checks on the degree of the DEEP composition polynomial are UPPER bounds. The divisions by (x - z) and
+    (x - z*g) guarantee degree <= n - 2; equality holds only for generic traces — for a valid degenerate trace (every column constant)
+    the polynomial is zero, and an exact-degree assertion makes the honest prover panic (genuine defect F33 of the pinned tree, repaired).
+    Every panic decision of the prover whose condition compares a computed degree (`DeepCompositionPoly::degree`, `infer_degree`,
+    `polynom::degree_of`) of the DEEP composition with a bound must be an ordering, not an (in)equality."""
+    from ..cfg import trace_cond, reach, T, S
+    from ..flow import flow
+    ck.rule("DEG", "the prover's degree checks on the DEEP composition polynomial are upper bounds, not equalities (valid degenerate traces have lower degree)")
+    DEGREE_FNS = ("DeepCompositionPoly::degree", "::infer_degree", "composer::DeepCompositionPoly::degree")
+    fns = [f for f in prog.fns.values() if f.crate == "winter_prover" and f.blocks and
+           (f.nname.endswith(("DeepCompositionPoly::add_trace_polys", "DeepCompositionPoly::add_composition_poly", "Prover::generate_proof"))
+            or (f.kind == "closure" and "generate_proof" in f.nname))]
+    n = 0
+    for f in fns:
+        g = flow(f)
+        for b in range(len(f.blocks)):
+            t = f.term(b)
+            if t["k"] != "switch":
+                continue
+            c = trace_cond(f, t["d"])
+            if c.kind != "cmp":
+                continue
+            w = g.walk(ops=[c.lhs, c.rhs], at=c.node, through=lambda tt: True)
+            if not any(x.endswith(DEGREE_FNS) for x in g.callee_names_in(w)):
+                continue
+            # only decisions one side of which panics
+            succ = [tb for _, tb in t["targets"]] + [t["otherwise"]]
+            panics = False
+            for tb in succ:
+                r = reach(f, [(tb, S)])
+                if any((callee_name(f.term(x)) or "").startswith(("core::panicking", "core::panic")) or (f.term(x)["k"] == "call" and f.term(x).get("target") is None)
+                       for x, k in r if k == S and x < len(f.blocks)) and not any(f.term(x)["k"] == "return" for x, k in r if k == S and x < len(f.blocks)):
+                    panics = True
+            if not panics:
+                continue
+            n += 1
+            ok = c.op in ("<", "<=", ">", ">=")
+            ck.saw(f)
+            ck.ob("DEG", f"{f.nname.split('::')[-1]}:degree-check#{n}", ok,
+                  f"{f.nname.split('::')[-1]}: the degree of the DEEP composition polynomial is checked against an upper bound", loc=f.loc(b, T),
+                  detail=None if ok else "an exact-degree assertion: the DEEP composition of a valid all-constant trace is the zero polynomial, the honest prover panics")
+    ck.floor("DEG: degree checks of the DEEP composition polynomial", n, 3)
